@@ -7,11 +7,12 @@ Local Open Scope Z_scope.
 
 (* the `precedence` tuple extracted from sly_bd_parser.py on this run orders the operators of the language exactly as
    the C table does (c_table: || < && < | < ^ < & < == != < relational < shifts < + - < * / %), every one of them is
-   present and associates to the left, and a sign takes the precedence of binary minus (yacc: last terminal of the rule) *)
+   present and associates to the left, a sign takes the precedence of binary minus (yacc: last terminal of the rule), and
+   the integer-size suffix binds tighter than every binary operator *)
 Theorem prec_table_documented :
   (forall p q, In p c_table -> In q c_table ->
      Nat.compare (prec_level precedence (fst p)) (prec_level precedence (fst q)) = Nat.compare (snd p) (snd q)) /\
   (forall p, In p c_table -> assoc_of precedence (fst p) = LeftA /\ prec_level precedence (fst p) <> 0%nat) /\
-  unary_lvl = lvl Sub.
+  unary_lvl = lvl Sub /\ (forall o, (lvl o < size_lvl)%nat).
 Proof. exact BdProofs.prec_table_documented. Qed.
 Print Assumptions prec_table_documented.
